@@ -58,7 +58,7 @@ CellLen(t, mb, data, pos) ==
     [] t \in {TEnum, TSet} -> mb[2]
     [] t \in BlobLike ->
          \* 4-byte lengths: the generated payloads are < 2^24, so the top byte is 0
-         mb[1] + PrefixLen(data, pos, Min(mb[1], 3))
+         mb[1] + PrefixLen(data, pos, Min2(mb[1], 3))
     [] t = TString ->
          IF mb[1] \in {TEnum, TSet} THEN mb[2]
          ELSE IF StringMax(mb) > 255 THEN 2 + PrefixLen(data, pos, 2) ELSE 1 + data[pos]
